@@ -10,6 +10,44 @@ let nat_of_int n =
 let int_of_nat (n : nat) : int =
   let rec go acc = function O -> acc | S m -> go (acc + 1) m in go 0 n
 
+(* binary numbers *)
+let rec pos_of_int (n : int) : positive =
+  if n <= 1 then XH else if n land 1 = 0 then XO (pos_of_int (n lsr 1)) else XI (pos_of_int (n lsr 1))
+let n_of_int (n : int) : n = if n <= 0 then N0 else Npos (pos_of_int n)
+let rec int_of_pos (p : positive) : int =
+  match p with XH -> 1 | XO q -> 2 * int_of_pos q | XI q -> 2 * int_of_pos q + 1
+let int_of_n (x : n) : int = match x with N0 -> 0 | Npos p -> int_of_pos p
+(* decimal string of an N that may exceed 63 bits *)
+let string_of_n (x : n) : string =
+  let rec bits p acc = match p with XH -> 1 :: acc | XO q -> bits q (0 :: acc) | XI q -> bits q (1 :: acc) in
+  match x with
+  | N0 -> "0"
+  | Npos p ->
+    (* most significant first *)
+    let bs = bits p [] in
+    let digits = ref [0] in  (* little-endian decimal digits *)
+    List.iter (fun b ->
+      let carry = ref b in
+      digits := List.map (fun d -> let v = 2 * d + !carry in carry := v / 10; v mod 10) !digits;
+      if !carry > 0 then digits := !digits @ [!carry]) bs;
+    String.concat "" (List.rev_map string_of_int !digits)
+let n_of_string (s : string) : n =
+  (* decimal -> N via repeated doubling on strings would be slow; values fit 64 bits: use Int64 unsigned halves *)
+  let hi = ref N0 in
+  String.iter (fun c ->
+    let d = Char.code c - 48 in
+    hi := Model.N.add (Model.N.mul !hi (n_of_int 10)) (n_of_int d)) s;
+  !hi
+let nbytes (l : int list) : n list = List.map n_of_int l
+let ibytes (l : n list) : int list = List.map int_of_n l
+
+let read_file (path : string) : int list =
+  let ic = open_in_bin path in
+  let len = in_channel_length ic in
+  let b = really_input_string ic len in
+  close_in ic;
+  List.init len (fun i -> Char.code b.[i])
+
 let hex_of_bytes (b : int list) : string =
   if b = [] then "-" else String.concat "" (List.map (Printf.sprintf "%02x") b)
 
